@@ -20,12 +20,20 @@ type Line struct {
 // so a command is never a subsequence of stale bytes (precondition of the echo matcher).
 const Markers = "QXZ_=+"
 
-var ansiFinals = []string{"m", "K", "H", "J", "A", "B", "C", "D", "h", "l"}
+var ansiFinals = []string{"m", "K", "H", "J", "A", "B", "C", "D", "h", "l", "m", "K", "f", "n", "q", "r", "t", "y", "P", "R", "Z", "c", "~"}
 
 // GenANSI draws one complete escape sequence of the harness grammar.
 func GenANSI(t *rapid.T) string {
-	if rapid.IntRange(0, 9).Draw(t, "ansiKind") == 0 {
+	switch rapid.IntRange(0, 14).Draw(t, "ansiKind") {
+	case 0:
 		return "\x1b(B"
+	case 1:
+		// two-byte sequences: keypad modes, full reset
+		return rapid.SampledFrom([]string{"\x1b=", "\x1b>", "\x1bc"}).Draw(t, "ansi2")
+	case 2:
+		// operating system command, BEL terminated (window title and the like)
+		return "\x1b]" + rapid.SampledFrom([]string{"0", "1", "2"}).Draw(t, "oscN") + ";" +
+			rapid.StringMatching(`[a-zA-Z0-9]{0,8}`).Draw(t, "oscText") + "\x07"
 	}
 
 	var sb strings.Builder
@@ -42,7 +50,7 @@ func GenANSI(t *rapid.T) string {
 			sb.WriteString(";")
 		}
 
-		nd := rapid.IntRange(0, 3).Draw(t, "ansiND")
+		nd := rapid.IntRange(0, 4).Draw(t, "ansiND")
 		for j := 0; j < nd; j++ {
 			sb.WriteByte(byte('0' + rapid.IntRange(0, 9).Draw(t, "ansiD")))
 		}
@@ -54,7 +62,7 @@ func GenANSI(t *rapid.T) string {
 }
 
 // MaxANSILen is the longest sequence GenANSI produces.
-const MaxANSILen = 2 + 1 + 3*3 + 2 + 1
+const MaxANSILen = 2 + 1 + 3*4 + 2 + 1
 
 // WithANSI inserts 0..k escape sequences at rune boundaries of s.
 func WithANSI(t *rapid.T, s string, k int) Line {
@@ -74,7 +82,12 @@ func WithANSI(t *rapid.T, s string, k int) Line {
 	for i := 0; i <= len(runes); i++ {
 		for _, p := range pos {
 			if p == i {
-				raw += GenANSI(t)
+				if rapid.IntRange(0, 5).Draw(t, "bareCR") == 0 {
+					// a carriage return in the middle of a line (progress output, erased pagers)
+					raw += "\r"
+				} else {
+					raw += GenANSI(t)
+				}
 			}
 		}
 
@@ -140,8 +153,14 @@ func GenTextLine(t *rapid.T, maxWords int) string {
 		sb.WriteString(" " + rapid.StringMatching(`[a-z0-9]{1,6}[#>$]`).Draw(t, "ptail"))
 	}
 
-	if rapid.IntRange(0, 3).Draw(t, "trail") == 0 {
+	switch rapid.IntRange(0, 7).Draw(t, "trail") {
+	case 0, 1:
 		sb.WriteString(strings.Repeat(" ", rapid.IntRange(1, 5).Draw(t, "trailN")))
+	case 2:
+		if nw > 0 {
+			// white space other than blanks at the end of a line is output like any other byte
+			sb.WriteString("\t")
+		}
 	}
 
 	return sb.String()
